@@ -24,6 +24,8 @@ type progGen struct {
 	arity   map[string]int // functions defined again with another number of parameters (default 2)
 	fvals   []string // variables holding a function value taken from one of funcs
 	captured map[string]bool // functions whose value was taken (they keep two parameters)
+	sconsts []string // string / float constants
+	alias   string   // the package the import alias "al" is bound to now
 	pending []string // statements that must follow the one just returned
 	long    bool     // many block scopes in one program (local slot numbers grow large)
 	structs bool
@@ -130,7 +132,7 @@ func (g *progGen) strExpr() string {
 	case k < 4 && g.imports["strconv"]:
 		return "strconv.Itoa(" + g.intExpr(1) + ")"
 	}
-	return `"` + core.Pick(g.r, []string{"a", "bc", "hello", "", "go at"}) + `"`
+	return `"` + core.Pick(g.r, []string{"a", "bc", "hello", "", "go at", "go  at", " ", "  ", "a b", "a  b", " a"}) + `"`
 }
 
 func (g *progGen) report() string {
@@ -250,11 +252,45 @@ func (g *progGen) stmt() string {
 		return st
 	}
 	for {
-		k := g.r.Intn(46)
+		k := g.r.Intn(50)
 		if g.long && g.obs && g.r.Bool() {
 			k = 22
 		}
 		switch k {
+		case 46, 47:
+			// string and float constants, declared again with another value between two reads
+			if !g.obs {
+				continue
+			}
+			if len(g.sconsts) > 0 && g.r.Bool() {
+				c := core.Pick(g.r, g.sconsts)
+				if strings.HasPrefix(c, "ks") {
+					return fmt.Sprintf("const %s = %q; host.Obs(%q, %s)", c, core.Pick(g.r, []string{"x", "y y", "", "zz"}), g.id("kc"), c)
+				}
+				return fmt.Sprintf("const %s = %d.25; host.Obs(%q, %s)", c, g.r.Intn(9), g.id("kc"), c)
+			}
+			if g.r.Bool() {
+				c := g.id("ks")
+				g.sconsts = append(g.sconsts, c)
+				return fmt.Sprintf("const %s = %q; host.Obs(%q, %s)", c, core.Pick(g.r, []string{"p", "q q", "r"}), g.id("kc"), c)
+			}
+			c := g.id("kf")
+			g.sconsts = append(g.sconsts, c)
+			return fmt.Sprintf("const %s = %d.5; host.Obs(%q, %s)", c, g.r.Intn(9), g.id("kc"), c)
+		case 48, 49:
+			// an import alias bound to one package and later to another; uses follow the binding
+			if !g.obs {
+				continue
+			}
+			pk := core.Pick(g.r, []string{"strings", "strconv"})
+			if g.alias == pk || g.r.Chance(1, 3) && g.alias != "" {
+				use := map[string]string{"strings": "al.Repeat(\"ab\", 2)", "strconv": "al.Itoa(42)"}[g.alias]
+				return fmt.Sprintf("host.Obs(%q, %s)", g.id("au"), use)
+			}
+			g.alias = pk
+			use := map[string]string{"strings": "al.Repeat(\"cd\", 3)", "strconv": "al.Itoa(7)"}[pk]
+			g.pending = append(g.pending, fmt.Sprintf("host.Obs(%q, %s)", g.id("au"), use))
+			return fmt.Sprintf("import ( al %q )", pk)
 		case 42:
 			// a function whose body names a package that is imported only by the NEXT statement
 			// (in both strategies the package is unknown where the function is compiled)
@@ -270,7 +306,7 @@ func (g *progGen) stmt() string {
 			pk := core.Pick(g.r, cands)
 			g.imports[pk] = true
 			f := g.id("early")
-			use := map[string]string{"strconv": "strconv.Itoa(7)", "strings": "strings.ToUpper(\"a\")", "math": "math.Floor(2.5)"}[pk]
+			use := map[string]string{"strconv": "strconv.Itoa(7)", "strings": "strings.Repeat(\"a\", 3)", "math": "math.Floor(2.5)"}[pk]
 			g.pending = append(g.pending, fmt.Sprintf("import %q", pk), fmt.Sprintf("host.Obs(%q, %s())", g.id("e"), f))
 			return fmt.Sprintf("func %s() any { return %s }", f, use)
 		case 43, 44:
